@@ -826,9 +826,18 @@ class CSSStyleSheet(cssutils.stylesheets.StyleSheet):
                 # no doublettes: rule is not inserted, so it gets no parent
                 return index
 
+            saved = list(self._cssRules)
             self._cssRules.insert(index, rule)
             if _clean:
-                self._cleanNamespaces()
+                try:
+                    self._cleanNamespaces()
+                except xml.dom.DOMException:
+                    # an older rule cannot go (its URI is in use): the rule
+                    # is not inserted and nothing else is changed
+                    list.__setitem__(self._cssRules, slice(None), saved)
+                    for r in saved:
+                        r._parentStyleSheet = self
+                    raise
                 if not any(r is rule for r in self._cssRules):
                     # not effective and removed again (and detached)
                     return index
